@@ -99,11 +99,12 @@ func (dist *GParetoDistribution) LogPdf(r Scalar, x ConstScalar) error {
     }
   }
 
-  r.Sub(r, dist.Mu)
+  r.Sub(x, dist.Mu)
   r.Div(r, dist.Sigma)
 
   if dist.Xi.GetFloat64() == 0.0 {
     r.Neg(r)
+    r.Sub(r, dist.cs)  // cs  = log sigma
   } else {
     r.Mul(r, dist.Xi)
     r.Log1p(r)
